@@ -40,7 +40,7 @@ import (
 )
 
 type event struct {
-	Op string        `json:"op"` // span | adv | tick
+	Op string        `json:"op"` // span | adv | tick | eject
 	T  int           `json:"t,omitempty"`
 	K  fx.Kind       `json:"k,omitempty"`
 	D  time.Duration `json:"d,omitempty"` // adv: signed offset from the nearest future model deadline (-1, 0, +1 ns) or, if Fixed, a plain duration
@@ -57,6 +57,9 @@ func (e event) String() string {
 			return "adv(" + e.D.String() + ")"
 		}
 		return fmt.Sprintf("adv(next-deadline%+dns)", int64(e.D))
+	}
+	if e.Op == "eject" {
+		return fmt.Sprintf("eject(w%d)", e.W)
 	}
 	return fmt.Sprintf("tick(w%d)", e.W)
 }
@@ -81,6 +84,12 @@ type scenario struct {
 	depth    int
 	maxSpans int
 	hints    sync.Map
+	// reuse scenarios: memory-pressure ejection is an event, spans keep arriving for traces that were already
+	// decided, and the kept-decision cache is tiny (keptSize), so a trace ID can be buffered a second time
+	// (a new fragment whose deadline counts from ITS first span)
+	reuse    bool
+	keptSize uint
+	kindsOf  map[int][]fx.Kind // per trace index; nil = kinds
 }
 
 type hint struct {
@@ -125,10 +134,15 @@ func reasonName(m *mtrace, limit uint) string {
 }
 
 func (s *scenario) exec(r *ev.Run, h []event) (string, string, *seqx.Failure) {
-	f := fx.New(fx.Options{Workers: s.workers, Traces: s.tc, Sampler: s.sampler, AddRuleReasonToTrace: true, KeptSize: uint(16 * s.workers)})
+	kept := uint(16 * s.workers)
+	if s.keptSize > 0 {
+		kept = s.keptSize
+	}
+	f := fx.New(fx.Options{Workers: s.workers, Traces: s.tc, Sampler: s.sampler, AddRuleReasonToTrace: true, KeptSize: kept})
 	defer f.Close()
 	model := map[string]*mtrace{}
 	decided := map[string]bool{}
+	how := map[string]string{} // how each decided fragment left the buffer (last time): tick | eject
 	nspan := map[string]int{}
 	limit := s.tc.SpanLimit
 	maxExp := int(s.tc.MaxExpiredTraces)
@@ -167,6 +181,13 @@ func (s *scenario) exec(r *ev.Run, h []event) (string, string, *seqx.Failure) {
 			if m == nil {
 				m = &mtrace{id: id, worker: f.WorkerFor(id), deadline: now.Add(s.traceTimeout())}
 				model[id] = m
+				if decided[id] {
+					flags["buffered-again-after-decision"] = true
+					if os.Getenv("C03_DEBUG") != "" {
+						fmt.Fprintln(os.Stderr, "REBUFFERED:", hist(h[:step+1]))
+					}
+					delete(decided, id)
+				}
 			}
 			m.count++
 			lower := func(t time.Time) {
@@ -196,6 +217,23 @@ func (s *scenario) exec(r *ev.Run, h []event) (string, string, *seqx.Failure) {
 				ev.Harness("C03: non-positive advance: %s", hist(h))
 			}
 			f.Advance(d)
+		case "eject":
+			// memory-pressure ejection of (at least) one trace: the statement exempts it from the deadline rule
+			// (which trace goes, and its send reason, is C07's subject). The model forgets what left the buffer.
+			f.Eject(e.W, 1)
+			f.SendAll()
+			still := map[string]bool{}
+			for _, v := range f.Buffered(e.W) {
+				still[v.TraceID] = true
+			}
+			for id, m := range model {
+				if m.worker == e.W && !still[id] {
+					delete(model, id)
+					decided[id] = true
+					how[id] = "eject"
+					flags["ejected"] = true
+				}
+			}
 		case "tick":
 			now := f.Now()
 			before := map[string]bool{}
@@ -303,6 +341,7 @@ func (s *scenario) exec(r *ev.Run, h []event) (string, string, *seqx.Failure) {
 			for _, m := range D {
 				delete(model, m.id)
 				decided[m.id] = true
+				how[m.id] = "tick"
 			}
 		}
 	}
@@ -383,6 +422,17 @@ func (s *scenario) exec(r *ev.Run, h []event) (string, string, *seqx.Failure) {
 	}
 	sort.Strings(dk)
 	fmt.Fprintf(&cb, "|decided%v", dk)
+	if s.reuse {
+		// what the decision cache still knows decides whether a later span is late or starts a new fragment.
+		// The absolute time is part of the state here: for the real code only the remaining offsets matter, but
+		// an implementation that keeps timing state of a fragment that left the buffer (a stale queue entry)
+		// would differ between two histories that this abstraction would otherwise merge.
+		fmt.Fprintf(&cb, "|t=%v", now.Sub(fx.T0))
+		for _, id := range dk {
+			d := f.Remembered(id)
+			fmt.Fprintf(&cb, "|%s:%s:kept=%v:dropped=%v", id, how[id], d.Kept, d.Dropped())
+		}
+	}
 	hn := &hint{buffered: make([]bool, len(s.ids)), decided: make([]bool, len(s.ids)), spans: make([]int, len(s.ids)), perWorker: make([]int, s.workers)}
 	for k, id := range s.ids {
 		_, hn.buffered[k] = model[id]
@@ -413,10 +463,14 @@ func (s *scenario) enabled(h []event) []event {
 	}
 	var out []event
 	for t := range s.ids {
-		if hn.decided[t] || hn.spans[t] >= s.maxSpans { // spans of decided traces are late spans: C01's subject
+		if (hn.decided[t] && !s.reuse) || hn.spans[t] >= s.maxSpans { // spans of decided traces are late spans: C01's subject
 			continue
 		}
-		for _, k := range s.kinds {
+		kinds := s.kinds
+		if ks, ok := s.kindsOf[t]; ok {
+			kinds = ks
+		}
+		for _, k := range kinds {
 			out = append(out, event{Op: "span", T: t, K: k})
 		}
 	}
@@ -433,6 +487,9 @@ func (s *scenario) enabled(h []event) []event {
 	for w := 0; w < s.workers; w++ {
 		if hn.perWorker[w] > 0 {
 			out = append(out, event{Op: "tick", W: w})
+			if s.reuse {
+				out = append(out, event{Op: "eject", W: w})
+			}
 		}
 	}
 	return out
@@ -472,6 +529,13 @@ func main() {
 	scs = append(scs, &scenario{name: "2workers,det2,SendDelay=1s,TraceTimeout=5s,SpanLimit=2,MaxExpiredTraces=1",
 		tc:      config.TracesConfig{SendDelay: config.Duration(time.Second), TraceTimeout: config.Duration(5 * time.Second), SpanLimit: 2, MaxExpiredTraces: 1, SendTicker: config.Duration(100 * time.Millisecond)},
 		workers: 2, ids: ids2, kinds: []fx.Kind{fx.Root, fx.Child}, sampler: det(2), keepAll: false, depth: depth, maxSpans: 3})
+	// ejection, then the same trace ID again: with a kept-decision cache of one entry the record of an ejected
+	// trace is pushed out by the next kept decision, so a later span starts a new fragment of that trace, whose
+	// deadline is TraceTimeout after ITS first span (nothing of the ejected fragment may survive in the timing state)
+	scs = append(scs, &scenario{name: "reuse-after-ejection,SendDelay=1s,TraceTimeout=5s,KeptSize=1",
+		tc:      config.TracesConfig{SendDelay: config.Duration(time.Second), TraceTimeout: config.Duration(5 * time.Second), SendTicker: config.Duration(100 * time.Millisecond)},
+		workers: 1, ids: []string{ids1[0], ids1[2]}, kinds: []fx.Kind{fx.Child}, kindsOf: map[int][]fx.Kind{1: {fx.Root}}, sampler: det(1), keepAll: true,
+		depth: ev.Pick(r, 9, 10), maxSpans: 3, reuse: true, keptSize: 1})
 	if only := os.Getenv("VERIF_SCENARIO"); only != "" {
 		var fl []*scenario
 		for _, s := range scs {
